@@ -2385,7 +2385,7 @@ class C12(Prop):
         for ops in DIRECTED_SINGLE:
             case = {"kind": "single", "seed": seed0 + n, "ops": ops}
             self._add(res, batch, case, run_case(case)); n += 1
-        for _ in range(ctx.scale(1400, 12000)):
+        for _ in range(ctx.scale(1250, 12000)):
             cfg_tcp, ops = gen_history(rng, ctx.scale(10, 16))
             case = {"kind": "hist", "seed": seed0 + n, "cfg_tcp": cfg_tcp, "ops": ops,
                     "policy": "pct" if rng.random() < 0.2 else "weighted"}
@@ -2412,7 +2412,7 @@ class C12(Prop):
         ctx.log(f"layer C done: {n} scenarios")
         n += self._calls(res, ctx, seeds=range(ctx.scale(1, 3)), stride=ctx.scale(10, 2), randoms=ctx.scale(4, 40), seed0=seed0 + 500000)
         ctx.log(f"layer D done: {n} scenarios")
-        n += self._busy(res, ctx, seeds=ctx.scale(8, 60), seed0=seed0 + 700000, stride=ctx.scale(2, 1))
+        n += self._busy(res, ctx, seeds=ctx.scale(6, 60), seed0=seed0 + 700000, stride=ctx.scale(2, 1))
         ctx.log(f"busy objects done: {n} scenarios")
         self._diff(res, batch)
         for case, tr in batch[:2] + [b for b in batch if b[0]["kind"] == "single"][:1] + [b for b in batch if b[0]["kind"] == "conc"][-1:]:
